@@ -197,6 +197,24 @@ CHECKS["C18"] = {
     "level_note": "needs the verif build tag hook in Torrent.announce; the web-seed fetch uses a real loopback socket (child runs in its own network namespace with lo up)",
 }
 
+CHECKS["C02"] = {
+    "level": "exploration",
+    "engine": "E3 swarm + E6 front-end",
+    "rule": ("readers: random seek/read programs (15-55 steps; whence variants, seeks before 0 / to / past EOF, buffer sizes 1 B..200 KB, zero-length reads, read-to-EOF) on 1-4 real tor.Readers over windows of torrents <= 1 MiB (whole torrent, a file, ending at a piece end, ending inside a piece, one byte, starting in the first piece, the tail), single- and multi-file, while one honest auto-seed and 0-2 slow / corrupting / silent seeds deliver, seeds leave and are replaced, pieces are evicted between reads (per-torrent eviction with Have(false) as tor.Expire does it, and tor.Expire itself under a small MemoryMark); one history in four starts with every piece already complete (the 'complete at request time, then evicted' family); each history ends with blocked reads being cancelled or the torrent killed. "
+             "frontends: HTTP GETs through the mux with Range headers (none, a-b, a-, -n, end beyond EOF, unsatisfiable, two ranges, first/last byte) and 1-4 concurrent FUSE handle reads (offsets up to and beyond EOF) on a file of a torrent that is being downloaded and evicted. "
+             "Every byte returned is compared with PRF truth at offset+position, lengths/EOF/Seek results with a seekable-file reference model, HTTP status/Content-Range/multipart parts with the range semantics. "
+             "Distinct = class vector of the action counts; non-trivial = at least three reads and one eviction (readers) / at least one HTTP request and one FUSE read (frontends)."),
+    "assumptions": E3_ASSUME + ["'eventually returns the data' is decided as bounded progress: a Read (retried every 100 virtual ms on (0,nil)), an HTTP request or a FUSE read must complete within 10 virtual minutes while an honest unchoking auto-seed is connected; 'fails promptly' = within 1 virtual minute of cancel / Kill",
+                                "short reads and transient (0,nil) are allowed; anything else is compared exactly"],
+    "min": {"distinct_nontrivial": {"quick": 60, "thorough": 60}, "counters": {"reads": 5000, "bytes_compared": 50000000, "evictions": 1000, "eofs": 300, "reads_resumed_after_zero_returns": 20, "http_206": 100, "fuse_reads": 500, "blocked_reads_failed_promptly:cancel": 50, "blocked_reads_failed_promptly:kill": 50}},
+    "parts": [{"name": "readers", "pkg": "c02_reader", "netns": "loopback", "race": False, "shards": 16},
+              {"name": "frontends", "pkg": "c02_reader", "netns": "loopback", "race": False, "shards": 16},
+              {"name": "readers-race", "pkg": "c02_reader", "netns": "loopback", "race": True, "shards": 16, "env": {"VERIF_RACE_SUBSET": "1"}}],
+    "technique": "runtime monitor: seekable-file reference model stepped next to real Readers / HTTP Range requests / FUSE reads over a virtual-time swarm with auto-seeds and evictions; content oracle (PRF truth); bounded-progress and prompt-failure oracles in virtual time; -race",
+    "level_text": "Generated seek/read programs, ranged GETs and concurrent FUSE reads run against the real Reader while scripted seeds deliver (or corrupt) data and pieces are evicted in between; every returned byte, length, EOF, Seek result and HTTP range answer is compared with the reference, blocked reads must resume within a virtual-time bound and fail promptly on cancel/Kill. Held on the histories observed.",
+    "level_note": "the HTTP and FUSE parts are driven without sockets / kernel (mux + recorder, fs.Node interfaces)",
+}
+
 # ---- entries written by the check builders (kept in their own files) ----
 import os as _os
 _here = _os.path.dirname(_os.path.abspath(__file__))
